@@ -37,6 +37,10 @@ def build(V, cfg):
         conns.append(c)
     out = asyncsym.mk_node(V, rec, "consumer", 10)
     oc = asyncsym.mk_conn(V, rec, node, out, blocking=False)
+    n_pre = len(rec.tasks)
+    toks = asyncsym.real_reset_start(V, [node])  # initial state (drift, end of 'previous' step, queues) comes from the real _reset/_start
+    started = [(t is node, n) for t, n, a in rec.tasks[n_pre:]] == [(True, "push_scheduled_ts")] and toks["n"] >= 1
+    del rec.tasks[n_pre:]
     tsmax = [[V.grid(f"tsmax{j}_{k}", lo=0) for k in range(K)] for j in range(nb)]
     for j in range(nb):
         for k in range(K):
@@ -50,7 +54,6 @@ def build(V, cfg):
                 g = []  # empty groups: the step may fire as soon as its start time is known
             groups[(j, k)] = g
             c.q_grouped.append(g)
-    node.q_ts_end_prev.append(asyncsym.zero(V))
     obs = []
     for k in range(K):
         node.q_tick.append(True)
@@ -58,7 +61,7 @@ def build(V, cfg):
         node.push_scheduled_ts()
         fired = len(node._record_steps) == k + 1
         obs.append(dict(fired=fired, tasks=list(rec.tasks[n_tasks:])))
-    return node, rec, obs, dict(phase=ph, tsmax=tsmax, conns=conns, out_conn=oc, groups=groups)
+    return node, rec, obs, dict(phase=ph, tsmax=tsmax, conns=conns, out_conn=oc, groups=groups, started=started)
 
 
 def scen_law(cfg):
@@ -123,6 +126,7 @@ def scen_law(cfg):
         if conj_phase:
             res["PHASE: a step that has caught up starts exactly at its scheduled time"] = S(conj_phase)
         res["all ticks executed exactly one step each, in order"] = all(o["fired"] for o in obs) and [int(s.seq) for s in node.node.step_calls] == list(range(K))
+        res["_reset/_start leave exactly one scheduling task and at least one tick token"] = inp["started"]
         res["no overlap: start_k >= end_{k-1}"] = S([T(node._record_steps[k].ts_start) >= T(node._record_steps[k - 1].ts_end) for k in range(1, K)]) if K > 1 else True
         if K >= 2 and nb:
             res["twin:held up by a blocking input"] = SymBool(T(node._record_steps[1].ts_start) == T(inp["tsmax"][0][1]))
@@ -180,6 +184,7 @@ def _concrete_law(V, cfg, node, rec, obs, inp):
     }
     res = {n: ok[v] for n, v in names.items()}
     res["all ticks executed exactly one step each, in order"] = all(o["fired"] for o in obs) and [int(s.seq) for s in node.node.step_calls] == list(range(K))
+    res["_reset/_start leave exactly one scheduling task and at least one tick token"] = inp["started"]
     return res
 
 
